@@ -11,6 +11,7 @@ import (
 	"net/url"
 	"reflect"
 	"strings"
+	"time"
 
 	"github.com/flamego/flamego"
 	"github.com/flamego/flamego/verifharness/core"
@@ -19,8 +20,9 @@ import (
 // ---- handler programs -------------------------------------------------------
 
 type act struct {
-	Op   string `json:"op"` // ev | write | header | next | cancel | panic | rectx (replace the request's context by a derived one; later cancels hit that one)
+	Op   string `json:"op"` // ev | write | header | next | cancel | expire (the request gets a context whose deadline has passed) | panic | rectx (replace the request's context by a derived one; later cancels hit that one)
 	Code int    `json:"code,omitempty"`
+	Via  string `json:"via,omitempty"` // write: "" the context's writer | wrap (through NewResponseWriter layered on the context's writer, as a response-modifying middleware does) | mount (another Flame instance is handed the context's writer and the request and writes the same bytes). Whoever writes, the response has been written
 }
 
 type hspec struct {
@@ -62,7 +64,7 @@ func genHspec(r *rand.Rand) hspec {
 		case x < 10:
 			h.Acts = append(h.Acts, act{Op: "ev"})
 		case x < 14:
-			h.Acts = append(h.Acts, act{Op: "write"})
+			h.Acts = append(h.Acts, act{Op: "write", Via: []string{"", "", "", "wrap", "mount"}[r.Intn(5)]})
 		case x < 16:
 			h.Acts = append(h.Acts, act{Op: "copy"}) // streaming a body with io.Copy from a plain reader
 		case x < 20:
@@ -70,7 +72,11 @@ func genHspec(r *rand.Rand) hspec {
 		case x < 35:
 			h.Acts = append(h.Acts, act{Op: "next"})
 		case x < 37:
-			h.Acts = append(h.Acts, act{Op: "cancel"})
+			if r.Intn(3) == 0 {
+				h.Acts = append(h.Acts, act{Op: "expire"})
+			} else {
+				h.Acts = append(h.Acts, act{Op: "cancel"})
+			}
 		case x < 38:
 			h.Acts = append(h.Acts, act{Op: "rectx"})
 		default:
@@ -227,6 +233,9 @@ func (s *chainSim) exec(i int, h *hspec) {
 			case "ev":
 				s.tr = append(s.tr, fmt.Sprintf("ev%d.%d", i, k))
 			case "write", "copy":
+				if a.Via == "mount" && s.cancelled {
+					break // the mounted instance does not start a handler for a request whose context is done
+				}
 				s.write(fmt.Sprintf("w%d.%d;", i, k))
 			case "header":
 				s.header(a.Code)
@@ -237,6 +246,9 @@ func (s *chainSim) exec(i int, h *hspec) {
 			case "cancel":
 				s.cancelled = true
 				s.tr = append(s.tr, fmt.Sprintf("cancel%d.%d", i, k))
+			case "expire":
+				s.cancelled = true
+				s.tr = append(s.tr, fmt.Sprintf("cancelx%d.%d", i, k))
 			case "rectx":
 				s.tr = append(s.tr, fmt.Sprintf("rectx%d.%d", i, k))
 			case "panic":
@@ -316,7 +328,17 @@ func (x *chainExec) mk(i int, h *hspec) flamego.Handler {
 			case "ev":
 				x.tr = append(x.tr, fmt.Sprintf("ev%d.%d", i, k))
 			case "write":
-				_, _ = c.ResponseWriter().Write([]byte(fmt.Sprintf("w%d.%d;", i, k)))
+				data := []byte(fmt.Sprintf("w%d.%d;", i, k))
+				switch a.Via {
+				case "wrap":
+					_, _ = flamego.NewResponseWriter(c.Request().Method, c.ResponseWriter()).Write(data)
+				case "mount":
+					sub := flamego.NewWithLogger(io.Discard)
+					sub.NotFound(func(w http.ResponseWriter) { _, _ = w.Write(data) })
+					sub.ServeHTTP(c.ResponseWriter(), c.Request().Request)
+				default:
+					_, _ = c.ResponseWriter().Write(data)
+				}
 			case "copy":
 				_, _ = io.Copy(c.ResponseWriter(), plainReader{strings.NewReader(fmt.Sprintf("w%d.%d;", i, k))})
 			case "header":
@@ -328,6 +350,13 @@ func (x *chainExec) mk(i int, h *hspec) flamego.Handler {
 			case "cancel":
 				x.cancel()
 				x.tr = append(x.tr, fmt.Sprintf("cancel%d.%d", i, k))
+			case "expire":
+				// a timeout middleware whose time is up: the request now carries a context whose deadline has passed
+				// (it is done with DeadlineExceeded, nobody called a cancel function)
+				ctx2, cancel2 := gocontext.WithDeadline(c.Request().Context(), time.Unix(1, 0))
+				c.Request().Request = c.Request().WithContext(ctx2)
+				x.cancel = cancel2
+				x.tr = append(x.tr, fmt.Sprintf("cancelx%d.%d", i, k))
 			case "rectx":
 				// the usual deadline-middleware pattern: the request now carries a derived context
 				ctx2, cancel2 := gocontext.WithCancel(c.Request().Context())
@@ -565,11 +594,14 @@ func judgeChain(w *core.W, c *chainCase) {
 			switch a.Op {
 			case "next":
 				n++
-			case "write", "header", "cancel", "panic":
+			case "write", "header", "cancel", "expire", "panic":
 				eff = true
 			}
 		}
 		for _, a := range h.Acts {
+			if a.Op == "write" && a.Via != "" {
+				w.Count("write-via:" + a.Via)
+			}
 			if a.Op == "copy" {
 				eff = true
 			}
@@ -609,6 +641,9 @@ func judgeChain(w *core.W, c *chainCase) {
 		if strings.HasPrefix(e, "rectx") {
 			sawRectx = true
 		}
+		if strings.HasPrefix(e, "cancelx") {
+			w.Count("deadline-expired-executed")
+		}
 		if strings.HasPrefix(e, "cancel") {
 			w.Count("cancel-executed")
 			if sawRectx {
@@ -629,7 +664,7 @@ func judgeChain(w *core.W, c *chainCase) {
 }
 
 func runC03(r *core.Run) {
-	r.Rule("random handler programs: 0-3 application middleware, 0-3 nested groups with 0-2 handlers each, 1-4 route handlers, optional action, 1/6 of requests unrouted (middleware + not-found handlers + action); every handler is a random action list (<=5) over {event, Write, WriteHeader, Next, cancel request context, replace the request context by a derived one, panic} plus a return shape {none, \"\", string, []byte, nil []byte, (int,string), (int,\"\"), error, nil error}, invoked through the fast path or reflectively. Oracle: per-request event log (handler enter/exit, Next begin/end, every call reaching a spy writer) must equal the prediction of a statement-level interpreter, plus interpreter-independent trace predicates (consecutive start order, nesting, no automatic advance after write/cancel, one status before body). non-trivial = distinct programs with >=1 Next and an effect (write/cancel/panic) in a different handler, or >=2 Next in one handler, or the nil action reached")
+	r.Rule("random handler programs: 0-3 application middleware, 0-3 nested groups with 0-2 handlers each, 1-4 route handlers, optional action, 1/6 of requests unrouted (middleware + not-found handlers + action); every handler is a random action list (<=5) over {event, Write (directly, through a NewResponseWriter layered on the context's writer, or by another Flame instance mounted as a handler), WriteHeader, Next, cancel request context, give the request a context whose deadline has passed, replace the request context by a derived one, panic} plus a return shape {none, \"\", string, []byte, nil []byte, (int,string), (int,\"\"), error, nil error}, invoked through the fast path or reflectively. Oracle: per-request event log (handler enter/exit, Next begin/end, every call reaching a spy writer) must equal the prediction of a statement-level interpreter, plus interpreter-independent trace predicates (consecutive start order, nesting, no automatic advance after write/cancel, one status before body). non-trivial = distinct programs with >=1 Next and an effect (write/cancel/panic) in a different handler, or >=2 Next in one handler, or the nil action reached")
 	c03Canaries(r)
 	n := r.N(60000, 6000000)
 	r.Parallel("prog", n, func(w *core.W, rng *rand.Rand, i int) {
@@ -638,7 +673,7 @@ func runC03(r *core.Run) {
 		judgeChain(w, c)
 	})
 	r.Gate("distinct_nontrivial", r.NonTrivialCount(), 2000)
-	for _, k := range []string{"nil-action-reached", "not-found-chain", "panic-unwound", "next-twice-in-one-handler", "cancel-executed", "cancel-of-replaced-request-context", "head-request-written", "sibling-route-with-shared-handler-prefix"} {
+	for _, k := range []string{"nil-action-reached", "not-found-chain", "panic-unwound", "next-twice-in-one-handler", "cancel-executed", "deadline-expired-executed", "write-via:wrap", "write-via:mount", "cancel-of-replaced-request-context", "head-request-written", "sibling-route-with-shared-handler-prefix"} {
 		r.GateCounter(k, 50)
 	}
 }
